@@ -1024,19 +1024,55 @@ func BracketProtoRule(w *World, r *Result, rule string) {
 		return
 	}
 	seen := map[string]bool{}
+	// a construct without a handler of its own (the program's brackets written out where the
+	// statements are driven from): the function that calls its opener is judged, on the bracket
+	// methods of that construct only
+	opener := map[string]string{"If": "IfStart", "For": "ForStart", "FunctionDefinition": "FuncStart", "Program": "ProgramStart"}
+	hasHandler := map[string]bool{}
 	for _, d := range df.Fns {
-		spec, ok := bracketSpec[d.Node]
+		if _, ok := bracketSpec[d.Node]; ok {
+			if _, isRec := df.rec[d.Fn]; (!isRec || d.Node == "Block") && !df.partOfHandler(d) {
+				hasHandler[d.Node] = true
+			}
+		}
+	}
+	standIn := map[*DriverFn]string{}
+	for node, op := range opener {
+		if hasHandler[node] {
+			continue
+		}
+		for _, d := range df.Fns {
+			if _, ok := bracketSpec[d.Node]; ok {
+				continue
+			}
+			for _, t := range d.Traces {
+				for _, e := range t {
+					if e == "conv("+op+")" {
+						standIn[d] = node
+					}
+				}
+			}
+		}
+	}
+	for _, d := range df.Fns {
+		node := d.Node
+		only := ""
+		if n, ok := standIn[d]; ok {
+			node = n
+			only = bracketSpec[n]
+		}
+		spec, ok := bracketSpec[node]
 		if !ok {
 			continue
 		}
-		if _, isRec := df.rec[d.Fn]; isRec && d.Node != "Block" {
+		if _, isRec := df.rec[d.Fn]; isRec && node != "Block" {
 			continue
 		}
-		if df.partOfHandler(d) {
+		if df.partOfHandler(d) && only == "" {
 			continue
 		}
-		seen[d.Node] = true
-		key := "bracket:" + d.Node + "@" + d.Fn.Name()
+		seen[node] = true
+		key := "bracket:" + node + "@" + d.Fn.Name()
 		pos := w.Pos(d.Fn.Pos())
 		if d.Trunc {
 			r.Bad(rule, key+":paths", pos, "too many paths to enumerate")
@@ -1049,6 +1085,9 @@ func BracketProtoRule(w *World, r *Result, rule string) {
 			for _, e := range t {
 				switch {
 				case strings.HasPrefix(e, "conv("):
+					if only != "" && !strings.Contains(only, strings.TrimSuffix(strings.TrimPrefix(e, "conv("), ")")+`\)`) {
+						continue // not a bracket method of the construct (the final Dump)
+					}
 					proj = append(proj, e)
 				case strings.HasPrefix(e, "block("):
 					proj = append(proj, "block")
@@ -1061,7 +1100,7 @@ func BracketProtoRule(w *World, r *Result, rule string) {
 			}
 		}
 		if len(bad) > 0 {
-			r.Bad(rule, key, pos, fmt.Sprintf("%d of %d success paths of %s call the bracket methods of %s out of the matched order %s — e.g. %s: an opening or closing line is missing from the script", len(bad), len(d.Traces), d.Fn.Name(), d.Node, spec, bad[0]))
+			r.Bad(rule, key, pos, fmt.Sprintf("%d of %d success paths of %s call the bracket methods of %s out of the matched order %s — e.g. %s: an opening or closing line is missing from the script", len(bad), len(d.Traces), d.Fn.Name(), node, spec, bad[0]))
 		} else {
 			r.Ok(rule, key, pos, fmt.Sprintf("%d success paths: bracket methods in matched order", len(d.Traces)))
 		}
